@@ -530,6 +530,40 @@ Fixpoint encode (S : schema) (v : value) {struct v} : mval :=
       end
   end.
 
+(* A Python set has no order; the model writes its iteration order.  Two iteration orders of one set have the
+   same canonical form (every set of str sorted). *)
+Fixpoint vcanon (v : value) {struct v} : value :=
+  match v with
+  | VTuple l => VTuple (map vcanon l)
+  | VList l => VList (map vcanon l)
+  | VSet l => match strs_of l with Some ss => VSet (map VStr (ssort ss)) | None => VSet l end
+  | VDict ks vs => VDict ks (map vcanon vs)
+  | VStruct c fs => VStruct c (map vcanon fs)
+  | _ => v
+  end.
+
+Fixpoint sets_of_strs (v : value) {struct v} : bool :=
+  match v with
+  | VSet l => match strs_of l with Some _ => true | None => false end
+  | VTuple l | VList l => forallb sets_of_strs l
+  | VDict _ vs => forallb sets_of_strs vs
+  | VStruct _ fs => forallb sets_of_strs fs
+  | _ => true
+  end.
+
+Fixpoint set_free (v : value) {struct v} : bool :=
+  match v with
+  | VSet _ => false
+  | VTuple l | VList l => forallb set_free l
+  | VDict _ vs => forallb set_free vs
+  | VStruct _ fs => forallb set_free fs
+  | _ => true
+  end.
+
+Definition defaults_set_free (S : schema) : bool :=
+  forallb (fun cs => forallb (fun fd => match fd_default fd with Some d => set_free d | None => true end)
+                             (s_fields (snd cs))) (structs S).
+
 (* ------------------------------------------------------------------------------------------- *)
 (* decode: driven by the declared type *)
 Fixpoint decode_any (m : mval) {struct m} : value :=
